@@ -11,6 +11,8 @@ def top_fields(toks):
         t = toks[i]
         if t[0] in "AO" and t[1] == ":":
             e = int(t.split(":")[1])
+            if e <= i or e >= n:
+                return None          # the container's end index does not point forward into the tape: structurally unsound
             items.append(toks[i:e + 1]); i = e + 1
         else:
             items.append([t]); i += 1
@@ -56,7 +58,10 @@ def run_text(ctx):
         ft = full.split(" ") if full != "-" else []
         parts = o.split(" ", 2)
         gt = parts[2].split(" ") if len(parts) > 2 and parts[2] != "-" else []
-        fi, gi = [strip_idx(x) for x in top_fields(ft)], [strip_idx(x) for x in top_fields(gt)]
+        tf, tg = top_fields(ft), top_fields(gt)
+        if tg is None or tf is None:
+            ctx.fail("text-trunc-unsound", "%r cut at %d is accepted with a tape whose container end indices do not point forward: %s" % (data, k, o[:200]), [cases[j]], [o], "an error or a sound tape"); continue
+        fi, gi = [strip_idx(x) for x in tf], [strip_idx(x) for x in tg]
         # every completed top-level item equals the original's; only the last two items (the field being cut:
         # its key and its value) may differ or be absent
         m = max(0, len(gi) - 2)
